@@ -141,13 +141,23 @@ func VerifC18VisitorValidation() {
 	case 1:
 		c = &v1.SUDPVisitorConfig{VisitorBaseConfig: base}
 	default:
-		proto = c18Pick("protocol", []string{"kcp", "quic", "", "tcp"})
+		proto = c18Pick("protocol", []string{"kcp", "quic", "", "tcp", "QUIC", "Kcp"})
 		c = &v1.XTCPVisitorConfig{VisitorBaseConfig: base, Protocol: proto}
 	}
 	err := ValidateVisitorConfigurer(c)
 	want := name != "" && server != "" && port != 0
-	if _, isX := c.(*v1.XTCPVisitorConfig); isX {
+	if xc, isX := c.(*v1.XTCPVisitorConfig); isX {
 		want = want && (proto == "kcp" || proto == "quic")
+		if err == nil {
+			// the client compares the exact lower-case words: whatever is accepted must be one of them
+			zzverif.Assert(xc.Protocol == "kcp" || xc.Protocol == "quic", "C18.common.accepted-xtcp-protocol-is-a-word-the-client-understands")
+		}
+		if proto == "QUIC" || proto == "Kcp" {
+			// another letter case: refused, or accepted in the normalised form (asserted above)
+			zzverif.Reach("C18.common.visitor-protocol-other-case")
+			zzverif.Reach("C18.common.visitor")
+			return
+		}
 	}
 	zzverif.Assert((err == nil) == want, "C18.common.visitor-accepted-iff-documented-constraints-hold")
 	zzverif.Reach("C18.common.visitor")
